@@ -11,11 +11,16 @@
     inside Coq on random create/copy/attach/replace/delete scripts, including deletes that
     raise (KeyError / AttributeError): full object state + registry in insertion order."""
 import json
+import signal
 
 from harness import common, heaplib as HL
 
 VOCAB = ["eml", "dataset", "title", "creator", "contact", "individualName", "surName", "givenName",
          "references", "bogus", "abstract", "para"]
+
+
+def _alarm(signum, frame):
+    raise TimeoutError("operation did not return within 30 s")
 
 
 def subtree_nodes(n):
@@ -93,6 +98,20 @@ def above(c, par):
     return any(x is par for x in subtree_nodes(c))
 
 
+def self_referential(root):
+    """a references node lying inside the element it refers to: references.expand does not
+    terminate on the direct-child case (it iterates the child list it is inserting into) --
+    outside C14 (reported to the coordinator for C16); such inputs are not generated"""
+    for x in subtree_nodes(root):
+        ident = x.attributes.get("id")
+        if ident is None:
+            continue
+        for y in subtree_nodes(x):
+            if y.name == "references" and y.content == ident:
+                return True
+    return False
+
+
 def choose_op(rng, b, idc):
     """Pick the next operation as plain data (indices into b.held)."""
     held = b.held
@@ -139,7 +158,7 @@ def choose_op(rng, b, idc):
             if withrefs and rng.random() < 0.8:
                 k = rng.choice(withrefs)
                 n = held[k]
-            if not b.all_live(n):
+            if not b.all_live(n) or self_referential(n):
                 continue
             return ("expand", k)
         if r < 0.93:
@@ -267,7 +286,12 @@ def run_history(ctx, oplog_or_none, rng, length):
         log.append(op)
         ctx.count("op:" + op[0] + (":" + str(op[-1]) if op[0] in ("replace", "prune", "delete") else ""))
         try:
-            esc = apply_op(b, op, jc, ctx.count)
+            signal.signal(signal.SIGALRM, _alarm)
+            signal.alarm(30)                       # an operation that does not return is a failure, not a hung check
+            try:
+                esc = apply_op(b, op, jc, ctx.count)
+            finally:
+                signal.alarm(0)
         except Exception as e:
             esc = type(e).__name__ + ": " + str(e)[:120]
         if esc is not None:
